@@ -20,8 +20,8 @@ drv_atomics: one self-contained case per line (see harness/cmd/c17/main.go for t
 /-
   `drv_atomics ast`: the `fl` and `ai` lines are answered by the LTS GENERATED from the source (Got/Model/AtomicsGen.lean:
   AtomicIR semantics of the programs tools/srcfacts re-translates from loom/flag.go and loom/atomic.go on every run)
-  instead of the hand-written `stepF`/`stepA`; HasFlag (not translated: one atomic load, no yield point) is computed from the
-  generated LTS's word; other lines answer `not-translated`.
+  instead of the hand-written `stepF`/`stepA`; mx lines: generated TryLock threads + hand-written sync.Mutex traffic; cnt lines:
+  the generated Count.
 -/
 namespace Got.Drv.Atomics
 open Got.Model.Atomics Got.Drv
@@ -329,7 +329,12 @@ def flEngG : Eng GFSim where
     | _ => none
   step s t :=
     match s.progs[t]? with
-    | some (.H f :: _) => (s.pop t, "=" ++ showB (hasFlag s.g.mem.cell f))
+    | some (.H f :: _) =>
+      -- HasFlag has no hook: one uninterrupted call of the translated function on the current word
+      let r := match (hasFlagRun s.g.mem.cell f).hist.getLast? with
+        | some (_, .ret (some (.bool b))) => showB b
+        | _ => "?"
+      (s.pop t, "=" ++ r)
     | some (_ :: _) =>
       let s : GFSim := { s with g := flagStep s.g (.tau t) }
       if isIdle (s.g.conf t) then (s.pop t, "=r") else (s, "")
